@@ -117,7 +117,7 @@ def run(ctx: Ctx, replay: str | None) -> None:
 
     quick = ctx.tier == "quick"
     cfg = (SPEC_DIR / "MC_MtlBackward_quick.cfg").read_text()
-    mod = 8 if quick else 1
+    mod = 8 if quick else 4       # thorough: the model check is exhaustive on the larger universe, 1/4 of its scenarios are replayed
     cfg = cfg.replace("SampleMod = 8", f"SampleMod = {mod}").replace("SamplePick = 0", f"SamplePick = {ctx.seed % mod}")
     if not quick:
         cfg = cfg.replace("MaxLeaves = 1", "MaxLeaves = 2")
